@@ -181,7 +181,7 @@ theorem holds_finished (c : Conn) : WSt.finished.holds c = false := rfl
 theorem holds_canceled (c : Conn) : WSt.canceled.holds c = false := rfl
 theorem holds_gotErr (c : Conn) : WSt.gotErr.holds c = false := rfl
 theorem holds_gotConn (c d : Conn) : (WSt.gotConn c).holds d = true ↔ c = d := by simp [WSt.holds]
-theorem holds_using (c d : Conn) : (WSt.using c).holds d = true ↔ c = d := by simp [WSt.holds]
+theorem holds_inUse (c d : Conn) : (WSt.inUse c).holds d = true ↔ c = d := by simp [WSt.holds]
 
 /-- Giving a free connection `c` to a want that holds nothing keeps exclusivity. -/
 theorem Excl_deliver (s : St) (w : Want) (c : Conn) (v : WSt) (hv : ∀ d, v.holds d = true ↔ c = d)
@@ -619,7 +619,7 @@ theorem Excl_step (cfg : Cfg) (s : St) (op : Op) (h : Excl s) : Excl (step cfg s
     · next c hst =>
       split; exact h
       next k hk =>
-      have hholds : (s.wst w).holds c = true := by rw [hst]; exact (holds_using c c).mpr rfl
+      have hholds : (s.wst w).holds c = true := by rw [hst]; exact (holds_inUse c c).mpr rfl
       obtain ⟨h1, h2⟩ := Excl_tryPut cfg _ c k
         (Free_after_release s w c .finished (fun d => holds_finished d) hholds h) hk
         (Excl_release s w .finished (fun d => holds_finished d) h)
